@@ -126,6 +126,10 @@ type W struct {
 	tick   uint32
 	nconn  int
 	Hooks  []*Hook // stream hook contexts created so far (when WithHook)
+	// Deferred: the delayed tasks the server has scheduled and the harness has not run yet (the HLS
+	// directory cleanup of an ended stream); they never run by themselves in a world
+	Deferred []DeferredTask
+	defMu    sync.Mutex
 	// relay environment (see relay.go)
 	relay    bool
 	DialMode map[string]string
@@ -249,6 +253,11 @@ func New(c Conf) *W {
 		o.NotifyHandler = w.Notify
 	})
 	logic.VerifSetClock(w.SM, w.Now)
+	logic.VerifSetDefer(w.SM, func(ms int, f func()) {
+		w.defMu.Lock()
+		w.Deferred = append(w.Deferred, DeferredTask{DelayMs: ms, Run: f})
+		w.defMu.Unlock()
+	})
 	if withHook {
 		w.SM.WithOnHookSession(func(uniqueKey string, streamName string) logic.ICustomizeHookSessionContext {
 			h := &Hook{Key: uniqueKey, Stream: streamName}
@@ -346,6 +355,7 @@ func (w *W) Close() {
 	w.Net.Quiesce()
 	logic.VerifShutdown(w.SM)
 	logic.VerifSetClock(w.SM, nil)
+	logic.VerifSetDefer(w.SM, nil)
 	logic.VerifRelayForget(w.SM)
 	worlds.Delete(w.ID)
 	if w.FS != nil {
@@ -354,6 +364,33 @@ func (w *W) Close() {
 }
 
 func (w *W) Dump() string { return logic.VerifDump(w.SM) }
+
+// DeferredTask is a delayed task of the server (see W.Deferred).
+type DeferredTask struct {
+	DelayMs int
+	Run     func()
+}
+
+// FireDeferred runs the oldest pending delayed task (false when there is none).
+func (w *W) FireDeferred() bool {
+	w.defMu.Lock()
+	if len(w.Deferred) == 0 {
+		w.defMu.Unlock()
+		return false
+	}
+	t := w.Deferred[0]
+	w.Deferred = w.Deferred[1:]
+	w.defMu.Unlock()
+	t.Run()
+	return true
+}
+
+// PendingDeferred tells how many delayed tasks wait.
+func (w *W) PendingDeferred() int {
+	w.defMu.Lock()
+	defer w.defMu.Unlock()
+	return len(w.Deferred)
+}
 
 // ---- RTMP peer ----------------------------------------------------------------------------------------
 
